@@ -1162,4 +1162,266 @@ theorem strDistribute_core (s : State) (es : List Nat) (streams : List Stream) (
         rw [if_neg (fun x => hne x.symm), if_pos rfl] at this
         exact this
 
+
+theorem mem_of_getS {ss : List Stream} {x : Nat} {st : Stream} (h : getS ss x = some st) : st ∈ ss := by
+  unfold getS at h
+  split at h
+  · simp at h
+  · exact List.mem_of_getElem? h
+
+/-- every stream of the new store is either an untouched old stream or the saved value of a cached copy -/
+theorem core_cases (s : State) (es : List Nat) (streams : List Stream) (ee : Bool) (s' : State)
+    (hc : CoreConcl s es streams ee s') (hs : SStruct s) (hs' : SStruct s') (st' : Stream) (hm : st' ∈ s'.streams) :
+    (st' ∈ s.streams ∧ st'.id ∉ streams.map (·.id) ∧ (st'.id ∈ s'.active.ids ↔ st'.id ∈ s.active.ids)) ∨
+    (∃ v st0, st0 ∈ s.streams ∧ st0.id ∈ streams.map (·.id) ∧ v = { st0 with distributed := v.distributed } ∧ st' = finVal ee v ∧
+      (∀ i, amt v.distributed i + pendId (s'.ptrs.getD v.epochId Pointer.last) v i
+              ≤ amt st0.distributed i + pendId (s.ptrs.getD st0.epochId Pointer.last) st0 i) ∧
+      (st'.id ∈ s'.active.ids ↔ st0.id ∈ s.active.ids ∧ ¬ gone ee v)) := by
+  obtain ⟨c, _, _, _, _, c5, c6, c7, c8, c9, c10⟩ := hc
+  have hget' := getS_of_mem hs'.sid hm
+  by_cases hx : st'.id ∈ streams.map (·.id)
+  · right
+    obtain ⟨v, hv, hvid⟩ := c7 _ hx
+    have h8 := c8 v hv
+    rw [hvid, hget'] at h8
+    have hst' : st' = finVal ee v := Option.some.inj h8
+    obtain ⟨st0, g0, g1, g2⟩ := c10 v hv
+    have hid0 : st0.id = v.id := by rw [g1]
+    refine ⟨v, st0, mem_of_getS g0, by rw [hid0, hvid]; exact hx, g1, hst', g2, ?_⟩
+    rw [c9 st'.id, hid0, hvid]
+    constructor
+    · intro ⟨h1, h2⟩; exact ⟨h1, h2 v hv hvid⟩
+    · intro ⟨h1, h2⟩
+      refine ⟨h1, ?_⟩
+      intro w hw hwid
+      -- cached ids are distinct, so w = v
+      have hw8 := c8 w hw
+      rw [hwid, hget'] at hw8
+      have : finVal ee w = finVal ee v := by rw [← Option.some.inj hw8, hst']
+      -- `gone` only depends on the saved value
+      unfold gone at h2 ⊢
+      unfold finVal at this
+      cases ee with
+      | false => simp
+      | true =>
+        simp only [if_true] at this
+        rw [this]; exact h2
+  · left
+    have h5 := c5 _ hx
+    rw [hget'] at h5
+    refine ⟨mem_of_getS h5.symm, hx, ?_⟩
+    rw [c9 st'.id]
+    constructor
+    · intro h; exact h.1
+    · intro h
+      refine ⟨h, ?_⟩
+      intro v hv hvid
+      exact absurd (by rw [← hvid]; exact c6 v hv) hx
+
+
+/-! ### the bound is kept by the streamer's EndBlock and re-established around epoch boundaries -/
+
+theorem id_le_length {ss : List Stream} (hid : SidOK ss) {st : Stream} (h : st ∈ ss) : st.id ≤ ss.length := by
+  obtain ⟨k, hk, he⟩ := List.getElem_of_mem h
+  have := hid k hk
+  rw [he] at this; omega
+
+theorem sharesOf_tw0 (st : Stream) (h : (st.totalWeight != 0) = false) (rs : List Rec) (i : Nat) : sharesOf st rs i = 0 := by
+  unfold sharesOf shareOf
+  have : (st.totalWeight == 0) = true := by simpa using h
+  simp only [this, Bool.or_true, if_true]
+  apply sum_zero_of_all_zero
+  intro x hx; simp at hx; exact hx.2.symm ▸ rfl
+
+/-- the strong form of the bound for a copy `v` of `st0` with more distributed coins -/
+theorem strong_of_window (s s' : State) (st0 v : Stream) (g1 : v = { st0 with distributed := v.distributed }) (i : Nat)
+    (h0 : amt st0.distributed i + pendId (ptrOfEpoch s st0.epochId) st0 i + (st0.numEpochs - st0.filled - 1) * sharesOf st0 st0.recs i ≤ amt st0.coins i)
+    (hq : amt v.distributed i + pendId (s'.ptrs.getD v.epochId Pointer.last) v i
+              ≤ amt st0.distributed i + pendId (s.ptrs.getD st0.epochId Pointer.last) st0 i) :
+    amt v.distributed i + pendId (ptrOfEpoch s' v.epochId) v i + (v.numEpochs - v.filled - 1) * sharesOf v v.recs i ≤ amt v.coins i := by
+  have e1 : v.numEpochs = st0.numEpochs := by rw [g1]
+  have e2 : v.filled = st0.filled := by rw [g1]
+  have e3 : v.coins = st0.coins := by rw [g1]
+  have e4 : sharesOf v v.recs i = sharesOf st0 st0.recs i := by
+    have : v.recs = st0.recs := by rw [g1]
+    rw [this]
+    rw [g1]; exact sharesOf_congr rfl rfl rfl _ i
+  unfold ptrOfEpoch at *
+  rw [e1, e2, e3, e4]
+  omega
+
+theorem endBlock_SB (s s' : State) (hg : GInv s) (hs : SStruct s) (hstat : SStat s) (hsb : SB s)
+    (hlen : s.streams.length < maxU64) (h : streamerEndBlock s = .ok s') : SB s' ∧ SStat s' := by
+  unfold streamerEndBlock at h
+  have hin := activeStreams_good s hs
+  have hst : ∀ st ∈ activeStreams s, StrictInc (st.recs.map (·.gauge)) ∧ st.id < maxU64 := by
+    intro st hm
+    have hmem := mem_streamsOf hm
+    exact ⟨hstat.recs st hmem, by have := id_le_length hs.sid hmem; omega⟩
+  have hc := strDistribute_core s _ _ _ _ s' hg hs hin hst h
+  have hs' := (strDistribute_streams s _ _ _ _ s' hg hs hin h).1
+  have hids := activeStreams_ids s hs
+  constructor
+  · intro st' hm i
+    rcases core_cases s _ _ false s' hc hs hs' st' hm with ⟨a1, a2, a3⟩ | ⟨v, st0, b1, b2, b3, b4, b5, b6⟩
+    · rw [hids] at a2
+      have hna : st'.id ∉ s'.active.ids := fun hx => a2 (a3.1 hx)
+      unfold SBst; rw [if_neg hna]
+      have := hsb st' a1 i
+      unfold SBst at this; rw [if_neg a2] at this; exact this
+    · rw [hids] at b2
+      have hv : st' = v := by rw [b4]; rfl
+      have hact : st'.id ∈ s'.active.ids := b6.2 ⟨b2, fun hg' => by unfold gone at hg'; simp at hg'⟩
+      unfold SBst; rw [if_pos hact, hv]
+      have h0 := hsb st0 b1 i
+      unfold SBst at h0; rw [if_pos b2] at h0
+      exact strong_of_window s s' st0 v b3 i h0 (b5 i)
+  · constructor
+    · intro st' hm
+      rcases core_cases s _ _ false s' hc hs hs' st' hm with ⟨a1, _, _⟩ | ⟨v, st0, b1, _, b3, b4, _, _⟩
+      · exact hstat.tw st' a1
+      · have hv : st' = v := by rw [b4]; rfl
+        rw [hv, b3]; exact hstat.tw st0 b1
+    · intro st' hm
+      rcases core_cases s _ _ false s' hc hs hs' st' hm with ⟨a1, _, _⟩ | ⟨v, st0, b1, _, b3, b4, _, _⟩
+      · exact hstat.recs st' a1
+      · have hv : st' = v := by rw [b4]; rfl
+        rw [hv, b3]; exact hstat.recs st0 b1
+
+
+theorem mem_activeStreamsFor (s : State) (hs : SStruct s) (e : Nat) (st : Stream) (hm : st ∈ s.streams)
+    (ha : st.id ∈ s.active.ids) (he : st.epochId = e) : st.id ∈ (activeStreamsFor s e).map (·.id) := by
+  have : st.id ∈ (activeStreams s).map (·.id) := by rw [activeStreams_ids s hs]; exact ha
+  obtain ⟨y, hy, hyid⟩ := List.mem_map.1 this
+  have hgy := ((activeStreams_good s hs).2 y hy).1
+  have hgs := getS_of_mem hs.sid hm
+  rw [hyid, hgs] at hgy
+  have : y = st := (Option.some.inj hgy).symm
+  subst this
+  unfold activeStreamsFor
+  have hf : (y.epochId == e) = true := by rw [he]; exact beq_self_eq_true e
+  have hmem : y ∈ List.filter (fun x => x.epochId == e) (activeStreams s) := List.mem_filter.2 ⟨hy, hf⟩
+  exact List.mem_map_of_mem (f := (·.id)) hmem
+
+theorem activeStreamsFor_epoch (s : State) (e : Nat) (st : Stream) (h : st ∈ activeStreamsFor s e) : st.epochId = e := by
+  unfold activeStreamsFor at h
+  have := (List.mem_filter.1 h).2
+  simpa using this
+
+theorem atEpochEnd_static (st : Stream) :
+    st.atEpochEnd = { st with filled := st.atEpochEnd.filled } ∧
+    (st.atEpochEnd.filled = if st.totalWeight != 0 then st.filled + 1 else st.filled) := by
+  unfold Stream.atEpochEnd
+  split <;> exact ⟨rfl, rfl⟩
+
+theorem pendId_filled (p : Pointer) (st : Stream) (f : Nat) (i : Nat) : pendId p { st with filled := f } i = pendId p st i := by
+  unfold pendId
+  simp only
+  exact sharesOf_congr rfl rfl rfl _ i
+
+theorem afterEpochEnd_SB (s s' : State) (e : Nat) (hg : GInv s) (hs : SStruct s) (hstat : SStat s) (hsb : SB s)
+    (hlen : s.streams.length < maxU64) (h : streamerAfterEpochEnd s e = .ok s') : SB s' ∧ SStat s' := by
+  unfold streamerAfterEpochEnd at h
+  cases hd : strDistribute s [e] (activeStreamsFor s e) maxU64 true with
+  | error x => simp [hd] at h
+  | ok s1 =>
+    simp only [hd, Except.ok.injEq] at h
+    have hin := activeStreamsFor_good s hs e
+    have hst : ∀ st ∈ activeStreamsFor s e, StrictInc (st.recs.map (·.gauge)) ∧ st.id < maxU64 := by
+      intro st hm
+      have hmem : st ∈ s.streams := mem_of_getS (hin.2 st hm).1
+      exact ⟨hstat.recs st hmem, by have := id_le_length hs.sid hmem; omega⟩
+    have hc := strDistribute_core s _ _ _ _ s1 hg hs hin hst hd
+    have hs1 := (strDistribute_streams s _ _ _ _ s1 hg hs hin hd).1
+    have hptr_other : ∀ e', e' ≠ e → ptrOfEpoch s' e' = ptrOfEpoch s e' := by
+      intro e' hne
+      obtain ⟨_, _, _, _, c4, _⟩ := hc
+      rw [← h]
+      unfold ptrOfEpoch
+      simp only [List.getD_eq_getElem?_getD]
+      rw [List.getElem?_set_ne (fun x => hne x.symm)]
+      have := c4 e' (by simp only [List.mem_singleton]; exact hne)
+      simpa [List.getD_eq_getElem?_getD] using this
+    have hact : s'.active = s1.active := by rw [← h]
+    have hstr : s'.streams = s1.streams := by rw [← h]
+    constructor
+    · intro st' hm i
+      rw [hstr] at hm
+      rcases core_cases s _ _ true s1 hc hs hs1 st' hm with ⟨a1, a2, a3⟩ | ⟨v, st0, b1, b2, b3, b4, b5, b6⟩
+      · unfold SBst
+        rw [hact]
+        by_cases ha : st'.id ∈ s1.active.ids
+        · rw [if_pos ha]
+          have ha0 := a3.1 ha
+          have hne : st'.epochId ≠ e := fun he => a2 (mem_activeStreamsFor s hs e st' a1 ha0 he)
+          rw [hptr_other _ hne]
+          have := hsb st' a1 i
+          unfold SBst at this; rw [if_pos ha0] at this; exact this
+        · rw [if_neg ha]
+          have ha0 : st'.id ∉ s.active.ids := fun hx => ha (a3.2 hx)
+          have := hsb st' a1 i
+          unfold SBst at this; rw [if_neg ha0] at this; exact this
+      · obtain ⟨y, hy, hyid⟩ := List.mem_map.1 b2
+        have hy0 : y = st0 := by
+          have := (hin.2 y hy).1
+          rw [hyid, getS_of_mem hs.sid b1] at this
+          exact (Option.some.inj this).symm
+        have hep : st0.epochId = e := by rw [← hy0]; exact activeStreamsFor_epoch s e y hy
+        have hact0 : st0.id ∈ s.active.ids := by rw [← hy0]; exact (hin.2 y hy).2
+        have h0 := hsb st0 b1 i
+        unfold SBst at h0; rw [if_pos hact0] at h0
+        have hstrong := strong_of_window s s1 st0 v b3 i h0 (b5 i)
+        have hv : st' = v.atEpochEnd := by rw [b4]; rfl
+        obtain ⟨hst1, hst2⟩ := atEpochEnd_static v
+        have hall : sharesOf st' st'.recs i = sharesOf v v.recs i := by
+          rw [hv, hst1]; exact sharesOf_congr rfl rfl rfl _ i
+        have hcoins : st'.coins = v.coins := by rw [hv, hst1]
+        have hdist : st'.distributed = v.distributed := by rw [hv, hst1]
+        have hn : st'.numEpochs = v.numEpochs := by rw [hv, hst1]
+        unfold SBst
+        rw [hact]
+        by_cases ha : st'.id ∈ s1.active.ids
+        · rw [if_pos ha]
+          have hng := (b6.1 ha).2
+          unfold gone at hng
+          simp only [true_and, Nat.not_le] at hng
+          have hpend := pendId_le_all (ptrOfEpoch s' st'.epochId) st' i
+          rw [hall] at hpend ⊢
+          rw [hcoins, hdist, hn]
+          have hf : st'.filled = v.atEpochEnd.filled := by rw [hv]
+          rw [hf]
+          by_cases htw : (v.totalWeight != 0) = true
+          · simp only [htw, if_true] at hst2
+            rw [hst2] at hng ⊢
+            have hge : 1 ≤ v.numEpochs - v.filled - 1 := by
+              have : v.atEpochEnd.numEpochs = v.numEpochs := by rw [hst1]
+              omega
+            have hmul : sharesOf v v.recs i + (v.numEpochs - (v.filled + 1) - 1) * sharesOf v v.recs i
+                = (v.numEpochs - v.filled - 1) * sharesOf v v.recs i := by
+              have : v.numEpochs - v.filled - 1 = (v.numEpochs - (v.filled + 1) - 1) + 1 := by omega
+              rw [this, Nat.add_mul, Nat.one_mul, Nat.add_comm]
+            omega
+          · have htw' : (v.totalWeight != 0) = false := by simpa using htw
+            have hz := sharesOf_tw0 v htw' v.recs i
+            rw [hz] at hpend ⊢
+            simp only [Nat.mul_zero, Nat.add_zero]
+            omega
+        · rw [if_neg ha, hcoins, hdist]
+          omega
+    · constructor
+      · intro st' hm
+        rw [hstr] at hm
+        rcases core_cases s _ _ true s1 hc hs hs1 st' hm with ⟨a1, _, _⟩ | ⟨v, st0, b1, _, b3, b4, _, _⟩
+        · exact hstat.tw st' a1
+        · have hv : st' = v.atEpochEnd := by rw [b4]; rfl
+          rw [hv, (atEpochEnd_static v).1]; simp only
+          rw [b3]; exact hstat.tw st0 b1
+      · intro st' hm
+        rw [hstr] at hm
+        rcases core_cases s _ _ true s1 hc hs hs1 st' hm with ⟨a1, _, _⟩ | ⟨v, st0, b1, _, b3, b4, _, _⟩
+        · exact hstat.recs st' a1
+        · have hv : st' = v.atEpochEnd := by rw [b4]; rfl
+          rw [hv, (atEpochEnd_static v).1]; simp only
+          rw [b3]; exact hstat.recs st0 b1
+
 end DymVerif.Incent
